@@ -29,6 +29,8 @@ Objs ==
   \* header numbers with more than one digit: rank 10 and 12, a mode of length 11, a matrix with 10 columns
   \cup {KOf(<<2, 3>>, 10, 0), KOf(<<3>>, 12, 13), KOf(<<11, 2>>, 2, 0), MOf(2, 10, 0), MOf(12, 1, 4),
         DenseOf(<<10, 2>>, 0), SparseOf(<<12, 10>>, {1, 55, 120}, FALSE, 5), SparseOf(<<2, 3, 2>>, 1..12, TRUE, 0),
+        \* subscripts at the top of the range of a narrow integer type (the harness stores them as int8 / uint8)
+        SparseOf(<<128>>, {1, 128}, FALSE, 2), SparseOf(<<2, 256>>, {2, 511, 512}, TRUE, 7),
         \* more stored entries than any block size a writer is likely to use
         [kind |-> "sparse", shape |-> <<4500>>, subs |-> [k \in 1..4500 |-> <<k - 1>>], vals |-> [k \in 1..4500 |-> V(k + 3)]]}
   \cup {MOf(r, c, off) : r \in 1..3, c \in 1..3, off \in {0, 4}}
